@@ -520,6 +520,13 @@ def o_halo_padding(case):
         # dispersion mode: a non-zero measurement point re-centres on the ORIGINAL domain; compare un-centred
         base = dict(base, meas_pt=(0.0, 0.0))
         big["meas_pt"] = (0.0, 0.0)
+    if (case.get("par") or {}).get("prelude_full"):
+        # an EARLIER solve whose source fills the whole extended grid (the larger scene the sub-domain was cut from, non-zero up to its
+        # edges): the halo of the next solve is zeros, not whatever occupied those cells before
+        try:
+            solve3(dict(big, q=np.random.default_rng(int(abs(xmx * 1000)) % (1 << 31)).uniform(0.5, 2.0, big["q"].shape), footprint=False, meas_pt=(0.0, 0.0)))
+        except Exception:  # noqa: BLE001
+            pass
     a = solve3(base)
     b = solve3(big)
     tol = 1e-9 if base["precision"] == "double" else 3e-5
@@ -581,6 +588,8 @@ def run_C03(rng, tier, deep):
         c2["meas_pt"] = pt
         if c2["halo"] is None and max(c2["q"].shape) > 6:
             continue
+        if rng.random() < 0.4:
+            c2["par"] = dict(c2.get("par") or {}, prelude_full=True)
         run_oracle(st, o_halo_padding, c2)
     for _ in range(budget(tier, deep, 2, 6)):
         run_oracle(st, o_conservation, tall_column_case(rng))
@@ -1607,7 +1616,11 @@ def o_convergence(par):
                     if resolved[a, b]:
                         exact[(a, b)] = exact_transfer(fns, Lx[b], Ly[a], z0, H, [z[lout], H, z0])
             rel_dz = float(np.max(np.diff(z)[1:] / z[1:-1])) if n > 1 else 1.0
-            rel_dz = max(rel_dz, float((z[1] - z[0]) / z[1]))
+            # the lowest layer starts at the roughness length, where the similarity profiles are logarithmic: its relative thickness is
+            # measured as ln(z1/z0) (= dz/z for a thin layer, and >= (z1 - z0)/z1 always).  The surface concentration carries the whole
+            # resistance integral of 1/Kz, whose one-layer quadrature error on Kz ~ z grows like r/(2 ln r), r = z1/z0, while (z1 - z0)/z1
+            # stays below 1 (false alarm of the thorough tier, seed 4, after the surface level had been added to the compared levels)
+            rel_dz = max(rel_dz, float(np.log(z[1] / z[0])))
         e = 0.0
         for (a, b), ex in exact.items():
             for k in range(3):      # an interior level, the top node, and the surface (whose concentration carries the whole resistance)
